@@ -425,8 +425,15 @@ func (r *Runner) healthyPhase(rng *rand.Rand, cfg *RandCfg, all []string) {
 		case x < 50 && len(reqs) > 0:
 			p := reqs[rng.Intn(len(reqs))]
 			r.doRPC(Stim{Op: "dropreq", Kind: p.Kind, From: p.From, To: p.To}, p)
-		case x < 70 && len(upMin) > 0:
+		case x < 64 && len(upMin) > 0:
 			r.Do(Stim{Op: "fire", N: upMin[rng.Intn(len(upMin))]})
+		case x < 70:
+			// a vote request of a minority node that campaigned its way to a higher term earlier
+			// (or is still in flight from before): nodes in contact with the leader ignore it
+			lt := int(c.node(leader).r.Status().Term)
+			rt := lt + rng.Intn(3)
+			r.Do(Stim{Op: "inject", N: maj[rng.Intn(len(maj))], Kind: "rv", From: minority[rng.Intn(len(minority))],
+				Req: &WireReq{Term: rt, Last: 1000, LastT: rt, Pre: rng.Intn(3) == 0}})
 		case x < 80:
 			r.Do(Stim{Op: "adv", D: []int{10, 50, 100, 350}[rng.Intn(4)]})
 		case x < 84 && len(upMin) > 0 && cfg.Crashes:
